@@ -270,6 +270,14 @@ fn main() {
     println(o.to_json());
 }
 `},
+	// two spellings of one key in a parsed document
+	"json-keys-that-collapse": {"main": `fn main() {
+    let o = "{\"\\u00e9\": 1, \"e\\u0301\": 2, \"a\": 3, \"\\u00e4\": 4, \"a\\u0308\": 5, \"\\uac00\": 6, \"\\u1100\\u1161\": 7}".parse_json() as { ? };
+    println(o.keys().len());
+    println(o);
+    println(o.to_json());
+}
+`},
 	"json-failure-over-many-keys": {"main": `fn main() {
     let p = new { ? };
     p.set("r", 0..1); p.set("n", ((0.0 - 1.0) ** 0.5)); p.set("s", fn() -> int { 1 }); p.set("t", 5..6); p.set("u", debug); p.set("ok", 1);
